@@ -33,6 +33,7 @@ import (
 	"go.uber.org/nilaway/assertion/function/structfieldeffects"
 	"go.uber.org/nilaway/assertion/structfield"
 	"go.uber.org/nilaway/config"
+	"go.uber.org/nilaway/guard"
 	"go.uber.org/nilaway/util/analysishelper"
 	"go.uber.org/nilaway/util/asthelper"
 	"golang.org/x/tools/go/analysis"
@@ -304,8 +305,18 @@ func duplicateFullTriggersFromContractedFunctionsToCallers(
 	for ctrtFunc, calls := range callsByCtrtFunc {
 		r := funcResults[ctrtFunc]
 		if r == nil {
-			// The contracted function is imported from upstream, and the local package analysis
-			// does not involve it.
+			// The contracted function is imported from upstream, so its full triggers are not
+			// available for duplication. The call-site sites of its calls must still be connected
+			// to the function, so we connect them to its shared sites instead.
+			for caller, callExprs := range calls {
+				for _, callExpr := range callExprs {
+					if len(callExpr.Args) == 0 {
+						continue
+					}
+					dupTriggers[caller] = append(dupTriggers[caller],
+						connectCallSiteToUpstreamFunction(ctrtFunc, callExpr, pass)...)
+				}
+			}
 			continue
 		}
 		for _, trigger := range r.triggers {
@@ -346,6 +357,54 @@ func duplicateFullTriggersFromContractedFunctionsToCallers(
 		}
 		funcTriggers[r.index] = append(funcTriggers[r.index], triggers...)
 	}
+}
+
+// connectCallSiteToUpstreamFunction creates the full triggers that connect the call-site sites of a
+// call to a contracted function of another package to the shared sites of that function: (1) the
+// argument flows into the parameter of the function, as for a function without contracts; (2) if
+// the argument is nilable, i.e., the contract says nothing about this call, the result of the
+// function flows into the result of the call (a full trigger controlled by the argument site).
+func connectCallSiteToUpstreamFunction(
+	callee *types.Func,
+	callExpr *ast.CallExpr,
+	pass *analysishelper.EnhancedPass,
+) []annotation.FullTrigger {
+	argExpr := callExpr.Args[0]
+	argLoc := pass.PosToLocation(argExpr.Pos())
+	retLoc := pass.PosToLocation(callExpr.Pos())
+
+	argToParam := annotation.FullTrigger{
+		Producer: &annotation.ProduceTrigger{
+			Annotation: &annotation.FuncParam{
+				TriggerIfNilable: &annotation.TriggerIfNilable{
+					Ann: annotation.NewCallSiteParamKey(callee, 0, argLoc)}},
+			Expr: argExpr,
+		},
+		Consumer: &annotation.ConsumeTrigger{
+			Annotation: &annotation.ArgPass{
+				TriggerIfNonNil: &annotation.TriggerIfNonNil{
+					Ann: annotation.ParamKeyFromArgNum(callee, 0)}},
+			Expr:   argExpr,
+			Guards: guard.NoGuards(),
+		},
+	}
+	resultToCall := annotation.FullTrigger{
+		Producer: &annotation.ProduceTrigger{
+			Annotation: &annotation.FuncReturn{
+				TriggerIfNilable: &annotation.TriggerIfNilable{
+					Ann: annotation.RetKeyFromRetNum(callee, 0)}},
+			Expr: callExpr,
+		},
+		Consumer: &annotation.ConsumeTrigger{
+			Annotation: &annotation.UseAsReturn{
+				TriggerIfNonNil: &annotation.TriggerIfNonNil{
+					Ann: annotation.NewCallSiteRetKey(callee, 0, retLoc)}},
+			Expr:   callExpr,
+			Guards: guard.NoGuards(),
+		},
+		Controller: annotation.NewCallSiteParamKey(callee, 0, argLoc),
+	}
+	return []annotation.FullTrigger{argToParam, resultToCall}
 }
 
 // duplicateFullTrigger creates a (possibly controlled) full trigger from the given full trigger
